@@ -815,6 +815,169 @@ class ResyncSysex(Contract):
         return out
 
 
+# ====================================================================== C04: the whole-stream clauses as a loop invariant of the real feed
+class _StreamLoop(_FeedLoop):
+    """Tokenizer.feed over ANY byte string, with ghost state  flat = bytes of the non-real-time tokens emitted so far
+    (preceded by F0, those emitted before the call)  and  rts = bytes of the real-time tokens emitted in this call.
+    Invariant (on top of WF):     Sublist(flat ++ cur, hist ++ data[:i])     and     rts == RT(data, i)
+    where RT(data, i) = the defined real-time bytes among data[:i] (spec function, unfolded one step per iteration) and
+    `Sublist` is the uninterpreted predicate of l_parser.py, used only through instances of A1..A3 (proved in Lean).
+    This is the induction over the input that lifts the step lemmas to whole streams, done on the real loop."""
+    header = 'data'
+
+    def _g(self, ip):
+        return ip.ctx.__dict__['ghost_stream']
+
+    def enter(self, ip, fr, seqv):
+        st = _FeedLoop.enter(self, ip, fr, seqv)
+        h = ip.ctx.h
+        ip.ctx.__dict__['ghost_stream'] = {'flat': h.F0, 'rts': z3.Empty(IntSeq)}
+        return st
+
+    def havoc(self, ip, fr, st):
+        _FeedLoop.havoc(self, ip, fr, st)
+        g = self._g(ip)
+        g['flat'] = ip.ctx.fresh('g_flat', IntSeq)
+        g['rts'] = ip.ctx.fresh('g_rts', IntSeq)
+        st.flat0 = g['flat']
+        st.cur0 = cur_of(st.tok.attrs)
+        st.stepped = False
+
+    def _unfold(self, ip, st, j):
+        RT, d, n = ip.ctx.h.RT, st.seq, z3.Length(st.seq)
+        return z3.Implies(z3.And(j >= 0, j < n),
+                          RT(d, j + 1) == z3.If(defined_rt(d[j]), z3.Concat(RT(d, j), z3.Unit(d[j])), RT(d, j)))
+
+    def hints(self, ip, fr, st, phase):
+        from .l_parser import A1, A2, A3
+        h = ip.ctx.h
+        d = st.seq
+        out = [h.RT(d, z3.IntVal(0)) == z3.Empty(IntSeq)]
+        if phase != 'preserved':
+            return out
+        i = st.i - 1                                  # the iteration consumed data[i]
+        b = d[i]
+        inp = z3.Concat(h.hist, z3.Extract(d, z3.IntVal(0), i))
+        K0 = z3.Concat(st.flat0, st.cur0)
+        out.append(self._unfold(ip, st, i))
+        # sequence-theory fact: data[:i+1] == data[:i] ++ [data[i]]   (0 <= i < len)
+        out.append(z3.Concat(h.hist, z3.Extract(d, z3.IntVal(0), i + 1)) == z3.Concat(inp, z3.Unit(b)))
+        # instances of the Sublist axioms (l_parser.py; proved in lean/ListTheory.lean)
+        out += [A1(K0, inp, b), A2(K0, inp, b), A3(st.flat0, st.cur0, inp), A1(st.flat0, inp, b), A2(st.flat0, inp, b)]
+        return out
+
+    def step(self, ip, fr, st):
+        _FeedLoop.step(self, ip, fr, st)
+        toks = new_tokens(st.tok.attrs)
+        if toks is None:
+            return
+        g = self._g(ip)
+        b = st.seq[st.i]
+        ip.ctx.oblige('stream.at-most-one-token-per-byte', len(toks) <= 1, kind='ensures')
+        if len(toks) > 1:
+            return
+        if toks:
+            tok = V(toks[0])
+            isrt = tok[0] >= 0xF8
+            # one real-time message per defined real-time byte and it is that byte; any other token is a non-real-time message
+            ip.ctx.oblige('stream.rt-token-iff-defined-rt-byte',
+                          z3.Or(z3.And(defined_rt(b), tok == z3.Unit(b)), z3.And(z3.Not(defined_rt(b)), tok[0] < 0xF8)), kind='ensures')
+            g['flat'] = z3.If(isrt, g['flat'], z3.Concat(g['flat'], tok))
+            g['rts'] = z3.If(isrt, z3.Concat(g['rts'], tok), g['rts'])
+        else:
+            ip.ctx.oblige('stream.rt-token-iff-defined-rt-byte', z3.Not(defined_rt(b)), kind='ensures')
+
+    def inv(self, ip, fr, st):
+        out = _FeedLoop.inv(self, ip, fr, st)
+        h = ip.ctx.h
+        g = self._g(ip)
+        d = st.seq
+        cur = cur_of(st.tok.attrs)
+        if not is_z(cur):
+            cur = zseq(list(cur)) if len(cur) else z3.Empty(IntSeq)
+        from .l_parser import Sublist
+        out.append(Sublist(z3.Concat(g['flat'], cur), z3.Concat(h.hist, z3.Extract(d, z3.IntVal(0), st.i))))
+        out.append(g['rts'] == h.RT(d, st.i))
+        return out
+
+
+def _is_subsequence(xs, ys):
+    it = iter(ys)
+    return all(any(x == y for y in it) for x in xs)
+
+
+@contract
+class TokFeedStream(Contract):
+    """C04 for whole streams, by a loop invariant of the real Tokenizer.feed (not by an assumed induction): from ANY
+    well-formed state whose kept bytes K0 = F0 ++ cur0 are a subsequence of the history `hist` consumed so far, after
+    feed(data) the kept bytes (non-real-time tokens ++ partial message) are a subsequence of hist ++ data, and the
+    real-time tokens emitted by the call are exactly the defined real-time bytes of data, in order."""
+    key = 'C04.stream-invariants'
+    target = 'mido.tokenizer:Tokenizer.feed'
+    properties = ('C04',)
+    configs = tuple({'mode': m} for m in MODES)
+    loops = {('mido.tokenizer:Tokenizer.feed', 0): _StreamLoop()}
+    raises = {}
+
+    def inputs(self, h, cfg):
+        t = tok_obj(h, cfg['mode'])
+        h.data = h.int_seq('data', list, lo=0, hi=255, mutable=False)
+        if h.sym:
+            from .l_parser import Sublist
+            h.F0 = z3.Const('ghost_F0', IntSeq)
+            h.hist = z3.Const('ghost_hist', IntSeq)
+            h.RT = z3.Function('rtfilter', IntSeq, z3.IntSort(), IntSeq)
+            cur0 = h.cur0 if is_z(h.cur0) else (zseq(list(h.cur0)) if len(h.cur0) else z3.Empty(IntSeq))
+            h.assume(Sublist(z3.Concat(h.F0, cur0), h.hist))
+        return [t, h.data], {}
+
+    def ensures(self, h, cfg, a, r):
+        attrs = attrs_of(h.tok)
+        toks = new_tokens(attrs)
+        out = {'queue-only-appended': toks is not None}
+        if toks is None:
+            return out
+        if h.sym:
+            from .l_parser import Sublist
+            g = h.ctx.__dict__.get('ghost_stream')
+            if g is None:                # the loop was not cut (cannot happen for a symbolic length): nothing proved
+                out['loop-was-cut'] = False
+                return out
+            d = V(h.data)
+            cur = cur_of(attrs)
+            if not is_z(cur):
+                cur = zseq(list(cur)) if len(cur) else z3.Empty(IntSeq)
+            out['kept-bytes-are-a-subsequence-of-the-whole-input'] = Sublist(z3.Concat(g['flat'], cur), z3.Concat(h.hist, d))
+            out['real-time-tokens-are-exactly-the-defined-real-time-bytes-in-order'] = g['rts'] == h.RT(d, z3.Length(d))
+        else:
+            data = list(h.data)
+            cur0 = list(h.cur0)
+            cur1 = list(cur_of(attrs))
+            flat = [x for t in toks if t[0] < 0xF8 for x in t]
+            rts = [list(t) for t in toks if t[0] >= 0xF8]
+            out['kept-bytes-are-a-subsequence-of-the-whole-input'] = _is_subsequence(flat + cur1, cur0 + data)
+            out['real-time-tokens-are-exactly-the-defined-real-time-bytes-in-order'] = rts == [[x] for x in data if x in S.REALTIME_STATUS]
+        return out
+
+    def ensure_hints(self, h, cfg, a, r):
+        if not h.sym:
+            return []
+        d = V(h.data)
+        return [z3.Extract(d, z3.IntVal(0), z3.Length(d)) == d, h.RT(d, z3.IntVal(0)) == z3.Empty(IntSeq)]
+
+    def samples(self, cfg):
+        base = {'bytes': [0x90, 1] if cfg['mode'] == 'fixed' else ([0xF0, 3] if cfg['mode'] == 'sysex' else [7])}
+        if cfg['mode'] == 'fixed':
+            base.update(status=0x90, len=3)
+        if cfg['mode'] == 'idle':
+            base.update(len=3)
+        out = []
+        for d in ([], [1, 2, 3], [0xF8], [0x90, 1, 0xF8, 2, 0xFE, 0xFF, 3], [0xF9, 0xFD, 5], [0xF0, 1, 0xFA, 2, 0xF7, 0xC0],
+                  [0x80, 0x90, 0xF7, 0xF4, 1, 2, 3, 4, 0xF1], list(range(256))):
+            out.append(dict(base, data=d))
+        return out
+
+
 # ====================================================================== C05: feed(data) is exactly the calls feed_byte(data[0]), ...
 class _Recorder:
     """call-site stand-in for feed_byte: records the argument in a ghost sequence and does nothing else"""
@@ -848,7 +1011,7 @@ class TokFeedCallSequence(Contract):
     a ++ b in one call and feeding a then b perform the same sequence of steps on the same state."""
     key = 'C05.feed-is-a-fold-of-feed_byte'
     target = 'mido.tokenizer:Tokenizer.feed'
-    properties = ('C05',)
+    properties = ('C05', 'C06')      # C06: hypothesis `run` of lean/StreamInduction.lean
     loops = {('mido.tokenizer:Tokenizer.feed', 0): _CallSeqLoop()}
     raises = {}
     symbolic_only = True
